@@ -217,6 +217,57 @@ def run(ctx):
                     if abs(t1 - t0) > 0.25 * t0:           # hard-edged mask: area to O(perimeter); a missing 1/s is a factor s^2 >= 2.25
                         ctx.violation({'kind': 'transmitted-power-after-rescale', 'amplitude': 'scalar', 'upscale': s_ > 1, 'nseg>1': nseg > 1},
                                       {'shape': shape, 'scale': s_, 'amplitude': a0, 'before': t0, 'after': t1}, case=None)
+    # a hard-edged aperture (a mask that does not fill the array) over an OPD that is smooth on the WHOLE array: the OPD inside the new
+    # mask is the interpolated OPD, not the OPD weighted down towards the rim.  A constant OPD (a piston - optically nothing) must stay
+    # that constant on every sample of the new mask, and the same aperture with its amplitude written as an array of ones transmits
+    # what it transmits with the scalar amplitude 1
+    for n_, s_ in ((64, 3), (65, 0.75), (65, 1.5), (48, 1.25), (65, 0.6)):
+        for segd in (False, True):
+            if segd:
+                mk = np.zeros((2, n_, n_))
+                disc = lentil.circle((n_, n_), 0.4 * n_, antialias=False)
+                cols = np.arange(n_)[None, :]
+                mk[0], mk[1] = disc * (cols < n_ // 2 - 1), disc * (cols > n_ // 2 + 1)
+            else:
+                mk = lentil.circle((n_, n_), 0.4 * n_, antialias=False)
+            pist = 650e-9
+            nleaf += 1
+            ctx.case(('hard-aperture', n_, s_, segd))
+            try:
+                pp = lentil.Pupil(amplitude=1, opd=np.full((n_, n_), pist), mask=mk, pixelscale=1.0 / n_, focal_length=10.0).rescale(s_)
+                inside = (pp.mask != 0) if pp.mask.ndim == 2 else (pp.mask != 0).any(axis=0)
+                dev = float(np.abs(np.asarray(pp.opd)[inside] - pist).max() / pist)
+                pa = lentil.Pupil(amplitude=np.ones((n_, n_)), mask=mk, pixelscale=1.0 / n_, focal_length=10.0)
+                ps_ = lentil.Pupil(amplitude=1, mask=mk, pixelscale=1.0 / n_, focal_length=10.0)
+                ta = float((lentil.Wavefront(1e-6) * pa.rescale(s_)).intensity.sum())
+                ts = float((lentil.Wavefront(1e-6) * ps_.rescale(s_)).intensity.sum())
+            except Exception as ex:
+                ctx.violation({'kind': 'hard-aperture-' + type(ex).__name__, 'nseg>1': segd}, {'n': n_, 'scale': s_, 'error': repr(ex)[:200]}, case=None)
+                continue
+            if dev > 1e-9:
+                ctx.violation({'kind': 'opd-attenuated-at-the-rim', 'nseg>1': segd, 'upscale': s_ > 1},
+                              {'n': n_, 'scale': s_, 'max_relative_change_of_a_constant_opd_inside_the_new_mask': dev}, case=None)
+            if abs(ta - ts) > 1e-9 * ts:
+                ctx.violation({'kind': 'amplitude-attenuated-at-the-rim', 'nseg>1': segd, 'upscale': s_ > 1},
+                              {'n': n_, 'scale': s_, 'transmitted_with_scalar_amplitude': ts, 'with_array_of_ones': ta}, case=None)
+    # an aperture that FILLS its array: every new sample lies within the footprint of the old array (old coordinates -1/2 .. n-1/2), so
+    # the new mask is ones everywhere, as the amplitude is - the transmitted power is that of the old plane
+    for shape_, s_ in (((65, 65), 3), ((64, 64), 1.5), ((63, 97), 3), ((48, 65), 2.5)):
+        nleaf += 1
+        ctx.case(('full-array-aperture', shape_, s_))
+        try:
+            pf_ = lentil.Pupil(amplitude=np.ones(shape_), pixelscale=1.0 / shape_[0], focal_length=10.0)
+            pr_ = pf_.rescale(s_)
+            t0 = float((lentil.Wavefront(1e-6) * pf_).intensity.sum())
+            t1 = float((lentil.Wavefront(1e-6) * pr_).intensity.sum())
+            full = bool(np.all(pr_.mask != 0))
+        except Exception as ex:
+            ctx.violation({'kind': 'full-array-aperture-' + type(ex).__name__}, {'shape': shape_, 'scale': s_, 'error': repr(ex)[:200]}, case=None)
+            continue
+        # ceil(n*s) samples of 1/s cover at most one old sample more than the old array: the power is kept to that
+        if not full or abs(t1 - t0) > t0 * (1.0 / (shape_[0] * s_) + 1.0 / (shape_[1] * s_) + 1e-9):
+            ctx.violation({'kind': 'mask-eroded-at-the-array-border', 'upscale': s_ > 1},
+                          {'shape': shape_, 'scale': s_, 'new_mask_all_ones': full, 'power_before': t0, 'power_after': t1}, case=None)
     # beam width: a Gaussian amplitude of RMS width sigma samples has RMS width s*sigma samples after rescaling by s.  Pairs of factors
     # that give the SAME output size on the same input shape are used one after the other (and the first again at the end): the
     # magnification is the factor that was asked for, not one remembered from an earlier call
